@@ -206,6 +206,12 @@ struct EfgW<'a> {
     shared: BTreeMap<(i64, i64), u64>,
     used_slack: i64,
     slack_ok: bool,
+    /// outcomes whose payoffs are written somewhere and are a zero-sum increment (a, -a): an
+    /// interior node may refer to one of them by number only
+    reusable: Vec<(u64, i64)>,
+    /// outcomes referred to by number only so far; their payoffs are still to be written at a
+    /// later node (definition after use)
+    pending: Vec<(u64, i64)>,
 }
 
 fn is_2_5_smooth(mut n: u64) -> bool {
@@ -294,6 +300,10 @@ impl EfgW<'_> {
                     self.next_outcome
                 };
                 let name = if self.r.coin(0.3) { format!(" \"o{num}\"") } else { String::new() };
+                if self.st.share_outcomes && one + two == 0 && !self.reusable.iter().any(|(n, _)| *n == num) {
+                    // a zero-sum terminal outcome can be referred to by number at an interior node
+                    self.reusable.push((num, one));
+                }
                 let p = self.payoffs(one, two);
                 let _ = writeln!(self.out, "t \"\" {num}{name} {p}");
             }
@@ -373,9 +383,27 @@ impl EfgW<'_> {
     /// outcome clause of an interior node and what it pays to player one (zero-sum increment)
     fn interior(&mut self) -> (String, i64) {
         if self.r.coin(self.st.p_interior_payoff) {
+            if self.st.share_outcomes {
+                // by number only: the payoffs are written at another node (before or after this one)
+                if !self.reusable.is_empty() && self.r.coin(0.35) {
+                    let k = self.r.below(self.reusable.len() as u64) as usize;
+                    let (num, a) = self.reusable[k];
+                    return (format!("{num}"), a);
+                }
+                if !self.pending.is_empty() && self.r.coin(0.6) {
+                    let (num, a) = self.pending.remove(0);
+                    self.reusable.push((num, a));
+                    return (format!("{num} {}", self.payoffs(a, -a)), a);
+                }
+            }
             let a = (self.r.below(17) as i64 - 8) * 125;
             self.next_outcome += 1;
             let num = self.next_outcome;
+            if self.st.share_outcomes && self.r.coin(0.25) {
+                self.pending.push((num, a));
+                return (format!("{num}@@P{num}@@"), a);
+            }
+            self.reusable.push((num, a));
             (format!("{num} {}", self.payoffs(a, -a)), a)
         } else {
             ("0".to_string(), 0)
@@ -401,12 +429,25 @@ pub fn to_efg(model: &MNode, r: &mut Rng, st: &EfgStyle) -> EfgWritten {
         shared: BTreeMap::new(),
         used_slack: 0,
         slack_ok,
+        reusable: vec![],
+        pending: vec![],
     };
     let _ = writeln!(w.out, "EFG 2 R \"generated\" {{ \"one\" \"two\" }}");
     if st.comment {
         let _ = writeln!(w.out, "\"a comment\"");
     }
     w.node(model, 0);
+    // outcomes used by number whose payoffs were never written later: write them at the use
+    let pending = std::mem::take(&mut w.pending);
+    for (num, a) in pending {
+        let marker = format!("@@P{num}@@");
+        let pay = format!(" {}", w.payoffs(a, -a));
+        w.out = w.out.replacen(&marker, &pay, 1);
+    }
+    while let Some(i) = w.out.find("@@P") {
+        let j = w.out[i + 3..].find("@@").map(|j| i + 3 + j + 2).unwrap_or(w.out.len());
+        w.out.replace_range(i..j, "");
+    }
     let mut names: [BTreeMap<String, String>; 2] = Default::default();
     for p in 0..2 {
         for (info, num) in &w.info_num[p] {
